@@ -333,7 +333,7 @@ def check_shapes(shard: dict, timeout: float) -> dict:
                         if not _dec(res, 'calc_env_matrix', sym.to_matrix(env) - E, atoms, sh):
                             return res
                 # 4. nested: fold everything into one CircuitGate inside a wider/permuted circuit
-                if si % 4 == 0 and n <= 2:
+                if si % 4 == 0 and n <= 2 and list(reversed(rad)) == list(rad):
                     outer_rad = list(rad) + [2]
                     perm_loc = list(reversed(range(n)))        # block applied on reversed qudits
                     outer = Circuit(n + 1, [rad[q] for q in perm_loc] + [2])
